@@ -122,6 +122,38 @@ def rerootGraphNx (g : WGraph) (r : Int) : WGraph :=
   let w := walkNx (g.length + 1) g r
   w.2.2 ++ invertedEdges w.1 w.2.1
 
+/-- How the networkx branch tests "no parent", as the source spells it: identity tests against `None`
+(`true`) or truthiness (`false`: the node id `0` would count as "no parent"). -/
+structure NxWalkSpec where
+  skipIsNone : Bool       -- `if parent is None: continue`
+  loopIsNotNone : Bool    -- `while parent is not None:`
+deriving Repr, DecidableEq, Inhabited
+
+def refNxWalkSpec : NxWalkSpec := { skipIsNone := true, loopIsNotNone := true }
+
+/-- Python's verdict "there is no parent" on `next(g.successors(i), None)`. -/
+def saysNoParent (identityTest : Bool) (p : Option (Int × Nat)) : Bool :=
+  match p with
+  | none => true
+  | some e => !identityTest && e.1 == 0
+
+/-- The walk with the loop test of the source. -/
+def walkNxAW (spec : NxWalkSpec) : Nat → WGraph → Int → List Int × List Nat × WGraph
+  | 0, g, cur => ([cur], [], g)
+  | fuel + 1, g, cur =>
+    match succOf g cur with
+    | none => ([cur], [], g)
+    | some (p, w) =>
+      if saysNoParent spec.loopIsNotNone (some (p, w)) then ([cur], [], g) else
+      let r := walkNxAW spec fuel (g.filter fun x => !(x.1 == cur && x.2.1 == p)) p
+      (cur :: r.1, w :: r.2.1, r.2.2)
+
+/-- The networkx branch of one reroot on the graph, as written (skip test, walk, inverted edges). -/
+def rerootGraphNxAW (spec : NxWalkSpec) (g : WGraph) (r : Int) : WGraph :=
+  if saysNoParent spec.skipIsNone (succOf g r) then g else
+  let w := walkNxAW spec (g.length + 1) g r
+  w.2.2 ++ invertedEdges w.1 w.2.1
+
 /-- Undirected weighted edges (what "the edge set with its weights" means). -/
 def wuedges (g : WGraph) : List ((Int × Int) × Nat) := g.map fun e => (uedge e.1 e.2.1, e.2.2)
 
